@@ -48,7 +48,7 @@ Proof. exact (all_listed_violate_sound ls_live ls_table table_listed_violate). Q
 
 (* every exemption is used: no pair of the listing is outside the table's failing pairs *)
 Definition conflicting_pairs_count : nat :=
-  length (flat_map (fun a1 => filter (fun a2 => conflictingb a1 a2 && negb (exemptb ls_live a1 a2)) ls_table) ls_table).
+  length (flat_map (fun a1 => filter (fun a2 => if conflictingb a1 a2 then negb (exemptb ls_live a1 a2) else false) ls_table) ls_table).
 
 Lemma table_nonvacuous : Nat.ltb 0 conflicting_pairs_count = true.
 Proof. vm_compute. reflexivity. Qed.
@@ -56,10 +56,10 @@ Proof. vm_compute. reflexivity. Qed.
 Theorem lockset_nonvacuous :
   exists a1 a2, In a1 ls_table /\ In a2 ls_table /\ conflicting a1 a2 /\ ~ exempt ls_live a1 a2.
 Proof.
-  assert (H : existsb (fun a1 => existsb (fun a2 => conflictingb a1 a2 && negb (exemptb ls_live a1 a2)) ls_table) ls_table = true)
+  assert (H : existsb (fun a1 => existsb (fun a2 => if conflictingb a1 a2 then negb (exemptb ls_live a1 a2) else false) ls_table) ls_table = true)
     by (vm_compute; reflexivity).
   apply existsb_exists in H. destruct H as [a1 [H1 H]]. apply existsb_exists in H. destruct H as [a2 [H2 H]].
-  apply andb_true_iff in H. destruct H as [Hc He]. apply negb_true_iff in He.
+  destruct (conflictingb a1 a2) eqn:Hc; [|discriminate]. rename H into He. apply negb_true_iff in He.
   exists a1, a2. repeat split; try assumption.
   - apply conflictingb_spec in Hc. apply Hc.
   - apply conflictingb_spec in Hc. apply Hc.
